@@ -12,7 +12,7 @@ import (
 
 // V1: provenance of the fields of the message handed to the RBC instance.
 func ruleC02V1(c *Ctx, t *thrModel, rule string) {
-	c.Rule(rule, "rbcMsg fields: round/broadcast ← local classifier(payload); digest ← hash(same payload); from ← IncMessage.Source; ack fields ← decoder", 8)
+	c.Rule(rule, "rbcMsg fields: round/broadcast ← local classifier(payload); digest ← hash(same payload); from ← IncMessage.Source; ack fields ← decoder", 4)
 	allocs := t.rbcMsgAllocs()
 	nPayload, nAck := 0, 0
 	for _, a := range allocs {
@@ -151,7 +151,7 @@ func (t *thrModel) keyIsTopic(v ssa.Value) bool {
 
 // V2: only participant-filtered receivers are registered.
 func ruleC02V2(c *Ctx, t *thrModel, rule string) {
-	c.Rule(rule, "every value stored into rbcInProgress is rbcFilter.Receive with allowedList derived from the agreed member list", 2)
+	c.Rule(rule, "every value stored into rbcInProgress is rbcFilter.Receive with allowedList derived from the agreed member list", 1)
 	for _, mu := range mapUpdatesOfField(t.fns, t.fRBCTab) {
 		fname := FuncName(mu.Parent())
 		pos := t.m.Pos(mu.Pos())
@@ -159,7 +159,7 @@ func ruleC02V2(c *Ctx, t *thrModel, rule string) {
 		var alloc *ssa.Alloc
 		if ok && meth.Name() == "Receive" {
 			if a, isA := resultOf(recv).(*ssa.Alloc); isA {
-				if p, isP := a.Type().(*types.Pointer); isP && isNamed(p.Elem(), PkgThreshold, "rbcFilter") {
+				if p, isP := a.Type().(*types.Pointer); isP && t.m.isNamedA(p.Elem(), PkgThreshold, "rbcFilter") {
 					alloc = a
 				}
 			}
@@ -237,7 +237,7 @@ func ruleC02W1(c *Ctx, t *thrModel) {
 // V3/L1: serialised instance.
 func ruleC02V3(c *Ctx, t *thrModel) {
 	const rule = "C02.V3"
-	c.Rule(rule, "setup wraps RBF results in threadSafeRBC; its Receive calls the inner handler under its lock; setupOnce.Do(setup) opens every API entry", 4)
+	c.Rule(rule, "setup wraps RBF results in threadSafeRBC; its Receive calls the inner handler under its lock; setupOnce.Do(setup) opens every API entry", 2)
 	// (a) setup stores a closure into RBF whose results are &threadSafeRBC{h: old(...).Receive}
 	okA := false
 	for _, st := range storesToField(deepFuncs(t.setup), t.fRBF) {
@@ -261,7 +261,7 @@ func ruleC02V3(c *Ctx, t *thrModel) {
 				continue
 			}
 			p, _ := a.Type().(*types.Pointer)
-			if p == nil || !isNamed(p.Elem(), PkgThreshold, "threadSafeRBC") {
+			if p == nil || !t.m.isNamedA(p.Elem(), PkgThreshold, "threadSafeRBC") {
 				all = false
 				continue
 			}
@@ -405,7 +405,6 @@ func (t *thrModel) startsWithSetupOnce(root *ssa.Function) (bool, string) {
 	}
 	return false, "the entry block does not call setupOnce.Do(s.setup)"
 }
-
 
 // instanceSizeMatchesFilter: for every rbcFilter registered, the size handed
 // to the RBC factory equals the number of admitted participants: either
